@@ -4,11 +4,15 @@ import (
 	"bytes"
 	"io/fs"
 	"strings"
+	"sync"
 
 	"github.com/titpetric/lessgo/dst"
 	"github.com/titpetric/lessgo/renderer"
 	"golang.org/x/net/html"
 )
+
+// lessRenderMu serialises calls into the lessgo renderer, which is not safe for concurrent use.
+var lessRenderMu sync.Mutex
 
 // LessProcessorError wraps processing errors with context.
 type LessProcessorError struct {
@@ -123,9 +127,12 @@ func (lp *LessProcessor) compileLessTag(styleNode *html.Node) error {
 		return &LessProcessorError{Err: err, Reason: "failed to parse LESS"}
 	}
 
-	// Render LESS to CSS
+	// Render LESS to CSS. lessgo's renderer assigns a package-level variable
+	// (functions.BaseDir) on every call, so concurrent renders must not overlap here.
+	lessRenderMu.Lock()
 	r := renderer.NewRenderer()
 	css, err := r.Render(file)
+	lessRenderMu.Unlock()
 	if err != nil {
 		return &LessProcessorError{Err: err, Reason: "failed to render LESS to CSS"}
 	}
